@@ -51,6 +51,8 @@ def _edge_vectors(f, letters):
         elif isinstance(val, ast.Call) and call_name(val) == "np.cross" and len(val.args) == 2 and all(isinstance(a, ast.Name) and a.id in vec for a in val.args):
             if vec[val.args[0].id][0] == "edge" and vec[val.args[1].id][0] == "edge":
                 vec[n] = ("normal", vec[val.args[0].id][1] | vec[val.args[1].id][1])
+            elif vec[val.args[0].id][0] == "edge" and vec[val.args[1].id][0] == "to_origin":
+                vec[n] = ("cross2", (val.args[0].id, val.args[1].id))          # e x XO, the inner half of a triple product
     return vec
 
 
@@ -60,6 +62,11 @@ def _feature_of_direction(e, vec):
     if isinstance(e, ast.Name) and e.id in vec:
         kind, s = vec[e.id]
         return s if kind in ("to_origin", "normal") else None
+    if isinstance(e, ast.Call) and call_name(e) == "np.cross" and len(e.args) == 2 and isinstance(e.args[0], ast.Name) and e.args[0].id in vec \
+            and vec[e.args[0].id][0] == "cross2" and isinstance(e.args[1], ast.Name) and e.args[1].id in vec:
+        # (x cross y) cross z with the inner product bound to a name: the same triple product
+        x, y = vec[e.args[0].id][1]
+        e = ast.Call(func=ast.Name(id="_triple_cross", ctx=ast.Load()), args=[ast.Name(id=x, ctx=ast.Load()), ast.Name(id=y, ctx=ast.Load()), e.args[1]], keywords=[])
     if isinstance(e, ast.Call) and call_name(e) == "_triple_cross" and len(e.args) == 3 and all(isinstance(a, ast.Name) and a.id in vec for a in e.args):
         k0, s0 = vec[e.args[0].id]
         k1, s1 = vec[e.args[1].id]
@@ -70,47 +77,42 @@ def _feature_of_direction(e, vec):
     return None
 
 
-def _result_names(f):
-    """(name of the point counter, name of the direction) = the two plain names of the function's last return tuple; the counter is the
-    one that is assigned integer literals"""
-    rets = [st for st in ast.walk(f.node) if isinstance(st, ast.Return) and isinstance(st.value, ast.Tuple)]
-    names = []
-    for r in rets:
-        ns = [e.id for e in r.value.elts if isinstance(e, ast.Name)]
-        if len(ns) >= 2:
-            names = ns
-    ints = {st.targets[0].id for st in ast.walk(f.node) if isinstance(st, ast.Assign) and isinstance(st.targets[0], ast.Name) and isinstance(const(st.value), int)}
-    cnt = [n for n in names if n in ints]
-    dirs = [n for n in names if n not in ints]
-    if len(cnt) != 1 or len(dirs) != 1:
-        raise AnalysisError("%s: cannot identify (n_points, search_direction) in its return" % f.key)
-    return cnt[0], dirs[0]
-
-
 def _leaves(body, rows, out, f, vec, params_rows=None):
-    """walk straight-line code + ifs; collect (rows after set_points, n_points, direction, lineno) at every assignment pair"""
-    NP, SD = _result_names(f)
-    rows = dict(rows)
-    n_points = None
-    direction = None
-    line = None
-    for st in body:
-        if isinstance(st, ast.If):
-            _leaves(st.body, rows, out, f, vec)
-            _leaves(st.orelse, rows, out, f, vec)
-            continue
-        for c in ([st.value] if isinstance(st, ast.Expr) and isinstance(st.value, ast.Call) else []):
-            if call_name(c) == "_set_point" and len(c.args) >= 5 and isinstance(c.args[4], ast.Starred) and isinstance(const(c.args[3]), int):
-                rows[const(c.args[3])] = u(c.args[4].value)
-        if isinstance(st, ast.Assign) and len(st.targets) == 1 and isinstance(st.targets[0], ast.Name):
-            if st.targets[0].id == NP and isinstance(const(st.value), int):
-                n_points = const(st.value)
-                line = st.lineno
-            elif st.targets[0].id == SD:
-                direction = st.value
-                line = st.lineno
-    if n_points is not None and direction is not None:
-        out.append((rows, n_points, direction, line))
+    """Path walk: every `return` of a (..., n_points, search_direction) tuple is a leaf, whether the two results were assigned to names first or are
+    written into the return directly; rows are updated by `_set_point(v, v1, v2, k, *X)` on the way.  Collects (rows, n_points, direction, lineno)."""
+    seen = set()
+
+    def resolve(e, env, depth=0):
+        while isinstance(e, ast.Name) and e.id in env and e.id not in vec and depth < 4:
+            e, depth = env[e.id], depth + 1
+        return e
+
+    def walk(stmts, rows, env):
+        rows, env = dict(rows), dict(env)
+        for i, st in enumerate(stmts):
+            if isinstance(st, ast.If):
+                walk(list(st.body) + list(stmts[i + 1:]), rows, env)
+                walk(list(st.orelse) + list(stmts[i + 1:]), rows, env)
+                return
+            if isinstance(st, ast.Expr) and isinstance(st.value, ast.Call):
+                c = st.value
+                if call_name(c) == "_set_point" and len(c.args) >= 5 and isinstance(c.args[4], ast.Starred) and isinstance(const(c.args[3]), int):
+                    rows[const(c.args[3])] = u(c.args[4].value)
+            if isinstance(st, ast.Assign) and len(st.targets) == 1 and isinstance(st.targets[0], ast.Name):
+                env[st.targets[0].id] = st.value
+            if isinstance(st, ast.Return):
+                if isinstance(st.value, ast.Tuple):
+                    elts = [resolve(e, env) for e in st.value.elts]
+                    ints = [const(e) for e in elts if isinstance(const(e), int) and not isinstance(const(e), bool)]
+                    dirs = [e for e in elts if not isinstance(const(e), int) and not (isinstance(e, ast.Attribute) and isinstance(e.value, ast.Name) and e.value.id[:1].isupper())
+                            and not (isinstance(e, ast.Constant) and e.value is None)]
+                    if len(ints) == 1 and len(dirs) == 1:
+                        keyt = (st.lineno, ints[0], u(dirs[0]), tuple(sorted(rows.items())))
+                        if keyt not in seen:
+                            seen.add(keyt)
+                            out.append((rows, ints[0], dirs[0], st.lineno))
+                return
+    walk(list(body), rows, {})
 
 
 def r_dosimplex(idx, rep, rule="R-DOSIMPLEX"):
